@@ -46,7 +46,14 @@ Inductive case :=
 | CLaw (l : law) (ms : list mesh)
 (* LaplacianSmooth: the implementation's output values as exact dyadic rationals (mantissa, exponent),
    compared with the rational model Mesh/Smooth.v laplacian_mesh (factor given as a dyadic as well) *)
-| CLap (t : topo) (idx : list nat) (d : list vec) (f : Z * Z) (k : nat) (out : list (list (Z * Z))).
+| CLap (t : topo) (idx : list nat) (d : list vec) (f : Z * Z) (k : nat) (out : list (list (Z * Z)))
+(* a retained result re-observed after LATER operations of a branching history on the real Go values:
+   [was] = what was read when the operation returned it, [now] = what is read from the same value after
+   the later operations (C02: still well-formed; C03: the same content) *)
+| CKeep (was now : mesh)
+(* a case judged by the harness alone (meshes too large for Coq literals: the disjoint-union law of the
+   tile stream); the number is the vertex count, for the record *)
+| CNote (n : N).
 
 (* predicates used by the attribute filters of the harness *)
 Inductive pdesc := PGe (c : nat) (t : Z) | PLe (c : nat) (t : Z) | PEven (c : nat) | PAll | PNone.
@@ -129,6 +136,7 @@ Definition corr_ok (c : case) : bool :=
       end
   | CLaw _ _ => true
   | CLap t idx d f k out => lap_ok t idx d f k out
+  | CKeep _ _ | CNote _ => true
   end.
 
 (* ------------------------------------------------------------------ C02: the direct oracle is wfb *)
@@ -144,6 +152,8 @@ Definition prop_c02 (c : case) : bool :=
       match out with Ok ms => forallb wfb ms | _ => true end   (* a rejected parameterisation is outside the quantifier *)
   | CLaw _ ms => forallb wfb ms
   | CLap _ _ _ _ _ _ => true
+  | CKeep was now => negb (wfb was) || wfb now
+  | CNote _ => true
   end.
 
 (* ------------------------------------------------------------------ C03: per-operation contracts *)
@@ -183,6 +193,12 @@ Definition only_attr_changesb (k : key) (f : list vec -> list vec) (m : mesh) (o
   | None, Declared => true
   | _, _ => false
   end.
+
+(* the survivors of a selection of whole primitives: exactly the selected corners with their content, no
+   unreferenced vertex, shell untouched, keys kept unless nothing survives (filters, slice) *)
+Definition kept_okb (m : mesh) (kept : list nat) (r : mesh) : bool :=
+  same_shell m r && all_referenced r && rows_eqb (corners r) (map (row m) kept)
+  && (is_nil kept || keys_eqb (keys m) (keys r)).
 
 Definition contract (o : op) (ins : list mesh) (out : res) : bool :=
   match o, ins with
@@ -358,6 +374,22 @@ Definition contract (o : op) (ins : list mesh) (out : res) : bool :=
   | ORotate a q, [m] => only_attr_changesb (3%N, a) (map (rotate_v q)) m out
   | OApplyTRS pos t, [m] => only_attr_changesb (3%N, pos) (map (trs_v t)) m out
   | OCenter a, [m] => only_attr_changesb (3%N, a) center_data m out
+  | OSlice a clip, [m] =>
+      match topology m, lookup (3%N, a) (attrs m) with
+      | Triangle, Some d =>
+          match out with
+          | Ok [ra; rb] =>
+              kept_okb m (concat (filter (forallb (fun i => clip (nth i d []))) (chunk3 (indices m)))) ra
+              && kept_okb m (concat (filter (forallb (fun i => negb (clip (nth i d [])))) (chunk3 (indices m)))) rb
+          | _ => false
+          end
+      | _, _ => res_eqb out Declared
+      end
+  | OScaleAlongNormal a nrm amt, [m] =>
+      match lookup (3%N, nrm) (attrs m) with
+      | Some dn => only_attr_changesb (3%N, a) (along_normal amt dn) m out
+      | None => res_eqb out Declared
+      end
   | _, _ => false
   end.
 
@@ -377,4 +409,6 @@ Definition prop_c03 (c : case) : bool :=
   | CGen _ | CGenI _ _ _ => true
   | CLaw l ms => law_ok l ms
   | CLap t idx d f k out => lap_ok t idx d f k out
+  | CKeep was now => mesh_eqb was now
+  | CNote _ => true
   end.
